@@ -324,7 +324,8 @@ def case_cpu(psutil, case):
                 bad.append(("boot_time:after-earlier-calls", "call %d of %r -> %r expected %r" % (step, case[2], got, b)))
     elif k == "freq-cpuinfo":
         mhz = case[2]
-        w.set_file("/proc/cpuinfo", b"".join(b"processor\t: %d\ncpu MHz\t\t: %s\n\n" % (i, ("%.3f" % m).encode()) for i, m in enumerate(mhz)))
+        key = (case[3] if len(case) > 3 else "cpu MHz\t\t").encode()        # (LoongArch spells it "CPU MHz")
+        w.set_file("/proc/cpuinfo", b"".join(b"processor\t: %d\n%s: %s\n\n" % (i, key, ("%.3f" % m).encode()) for i, m in enumerate(mhz)))
         got = outcome(psutil.cpu_freq, percpu=True)
         if got[0] != "ok" or [x.current for x in got[1]] != list(mhz):
             bad.append(("cpu_freq:cpuinfo:percpu", "%r expected %r" % (freeze(got), mhz)))
@@ -332,7 +333,7 @@ def case_cpu(psutil, case):
         if not mhz:
             if got != ("ok", None):
                 bad.append(("cpu_freq:cpuinfo:none", repr(got)))
-        elif got[0] != "ok" or abs(got[1].current - sum(mhz) / len(mhz)) > 1e-9:
+        elif got[0] != "ok" or got[1] is None or abs(got[1].current - sum(mhz) / len(mhz)) > 1e-9:
             bad.append(("cpu_freq:cpuinfo:mean", "%r expected mean of %r" % (freeze(got), mhz)))
     return bad
 
@@ -496,6 +497,7 @@ def build_cases(thorough):
                 cases.append(("cpu", "btime-seq", [1700000000 + a, 1700000000 + b, 1700000000 + c]))
     for mhz in ([], [1000.0], [1000.0, 3000.5], [800.0, 900.0, 4000.25, 0.0]):
         cases.append(("cpu", "freq-cpuinfo", mhz))
+    cases.append(("cpu", "freq-cpuinfo", [2500.0, 2300.0, 625.0], "CPU MHz\t\t\t"))
     return cases
 
 
